@@ -16,7 +16,7 @@ RULE = ("chain and two-branch topologies giving routes of 1..8 hops between real
         "(NETWORK_ACK frames by originator/PID, reception time at the origin) and the call history "
         "(result, virtual duration). Non-trivial: >=1 frame crossed the air and quiescence was "
         "reached; distinct = (hops, type class, fault plan kind and position, timeouts).")
-RULE += (" Later rounds added: same-header re-sends, foreign frames to relay during the origin's wait (with and without loss), multicast-off nodes, multicasts through relays (no NETWORK_ACK), multicast_level overrides, a frame to relay queued in the origin's RX FIFO just ahead of its NETWORK_ACK, a frame for the origin itself right behind it, a hop that is deaf for a swept time around the sending hop's tx_timeout, origins whose queue is full when they send.")
+RULE += (" Later rounds added: same-header re-sends, foreign frames to relay during the origin's wait (with and without loss), multicast-off nodes, multicasts through relays (no NETWORK_ACK), multicast_level overrides, a frame to relay queued in the origin's RX FIFO just ahead of its NETWORK_ACK, a frame for the origin itself right behind it, a hop that is deaf for a swept time around the sending hop's tx_timeout, origins whose queue is full when they send, a first hop that takes the frame late (3 ms .. tx_timeout - 3 ms) with a short route_timeout.")
 REQUIRED = {"result_vs_ack_arrival": 150, "ack_count": 300, "no_ack_for_others": 150,
             "duration_bound": 300}
 BUDGET = {"quick": 480, "thorough": 900}
@@ -71,8 +71,30 @@ def gen_outage_sweeps(ctx):
                            "seed": rng.getrandbits(30)}
 
 
+def gen_late_first_hop(ctx):
+    """the origin's own first hop is deaf for 3 ms .. tx_timeout - 3 ms (it takes the frame late, on a
+    stand-by retry) while route_timeout is SHORT (15 ms): the wait for the NETWORK_ACK is counted from
+    the moment the first hop took the frame, not from the call - an ACK that comes back a few ms
+    after that is in time however long the first hop took"""
+    rng = ctx.sub_rng("c13late")
+    for nodes, src, dst in (([0, 0o1, 0o11, 0o111], 0o111, 0), ([0, 0o3, 0o23, 0o4], 0o4, 0o23), ([0, 0o2, 0o52], 0, 0o52)):
+        for tx_to in (25, 60):
+            msgs = []
+            d = 3.0
+            while d <= tx_to - 3.0:
+                msgs.append({"src": src, "dst": dst, "type": 65 + len(msgs) % 100, "len": 4,
+                             "plan": {"kind": "fwd_outage", "node": src, "ms": round(d, 3)}})
+                d += 1.5 if ctx.tier == "quick" else 0.5
+            for k in range(0, len(msgs), 12):
+                yield {"nodes": nodes, "msgs": msgs[k:k + 12], "tx_timeout": tx_to, "route_timeout": 15,
+                       "mc_off": [], "relay": [], "mlevel": {},
+                       "profiles": {str(a): dict(N.rand_profile(rng, base=40000), poll=0) for a in nodes},
+                       "seed": rng.getrandbits(30)}
+
+
 def gen_cases(ctx):
     yield from gen_outage_sweeps(ctx)
+    yield from gen_late_first_hop(ctx)
     rng = ctx.sub_rng("c13")
     rng2 = ctx.sub_rng("c13b")  # later additions draw from their own stream
     ntop = 220 if ctx.tier == "quick" else 8000
